@@ -227,12 +227,25 @@ NOT_APPLICABLE = {
 ALL = [f"C{i:02d}" for i in range(1, 21)]
 
 
+# operations of the composed machine (spec/Session.tla) owned by each property: their mismatches in replayed TLC behaviours (spec -> code) and
+# rejected events of driver-chosen sessions (Trace_Session.tla, code -> spec) are reported by that property's check
+SESSION_OPS = {"C01": "advect (exact quarter-period advection step)", "C02": "rk (rational Runge-Kutta limit of ETDRKp, also through public stepper classes with vanishing linear part)",
+               "C03": "apply (nonlinear terms between the transforms)", "C04": "filter, oddball, coefs", "C05": "derive, poisson", "C10": "leray, incomp",
+               "C12": "forced (ForcedStepper around the exact advection step)", "C14": "advectn (repeat / rollout / RepeatedStepper of the exact advection step)",
+               "C15": "resample, interp", "C16": "metric", "C17": "spectrum", "C20": "reject (malformed calls eagerly and through jit / vmap / rollout / repeat / wrappers)"}
+
+
 def main():
     checks = []
     for pid in ALL:
         if pid not in CHECKS:
             continue
-        c = CHECKS[pid]
+        c = dict(CHECKS[pid])
+        if pid in SESSION_OPS:
+            c["text"] = c["text"] + (" Inside multi-step API sessions: this check owns the operation(s) " + SESSION_OPS[pid] + " of the composed machine Session.tla - "
+                                     "TLC-simulated sessions are replayed call by call with the whole state compared after every action" +
+                                     ("" if pid == "C20" else ", and driver-chosen sessions executed by the library are validated event by event by TLC (Trace_Session.tla)") + ".")
+            c["technique"] = c["technique"] + " + Session.tla simulation replay" + ("" if pid == "C20" else " and Trace_Session.tla trace validation") + " of the owned session operations"
         checks.append({
             "property_id": pid,
             "quick_cmd": f"bin/check {pid} --tier quick",
@@ -257,6 +270,7 @@ def main():
             "enable": "EXPONAX_VERIF=1 (set by bin/check); exponax is an editable install of /repo, so checks import the current working tree",
             "baseline_off_cmd": "cd /repo && env -u EXPONAX_VERIF /venv/bin/python -m pytest -ra -q -p no:cacheprovider --timeout=900 --continue-on-collection-errors",
             "source_commits": ["ec819bc", "d6c4536"],
+            "fix_commits": ["dfdb8f9", "3779200", "66289cb", "db0461f", "b575a47", "ed218ce", "d239fb2", "74c429c", "032d6d3", "aaafae3"],
             "add_only": True,
         },
         "engines": [
@@ -282,8 +296,12 @@ def main():
              "kind_free_text": "TLC dtype pipeline + two-session replay against an exact pivot"},
             {"name": "diff", "path": "spec/MC_Diff.tla harness/checks/c07.py", "serves_properties": ["C07"],
              "kind_free_text": "TLC exact derivative tables + replay into JAX AD"},
-            {"name": "session", "path": "spec/Session.tla harness/session.py", "serves_properties": ["C02", "C03", "C04", "C05", "C10", "C15"],
-             "kind_free_text": "composed machine: TLC -simulate behaviours of public API calls replayed call by call, whole state compared after every action"},
+            {"name": "session", "path": "spec/Session.tla harness/session.py", "serves_properties": sorted(SESSION_OPS),
+             "kind_free_text": "composed machine: TLC -simulate behaviours of public API calls replayed call by call, whole state (or observed value) compared after every action; exhaustive tiny instance in C17 thorough"},
+            {"name": "sessiontrace", "path": "spec/Trace_Session.tla harness/sessiontrace.py", "serves_properties": sorted(set(SESSION_OPS) - {"C20"}),
+             "kind_free_text": "code -> spec: driver-chosen API sessions executed by the library, every returned state rationalised and validated by TLC against the exact successor of Session.tla"},
+            {"name": "masks", "path": "spec/MC_Masks.tla harness/checks/c04.py", "serves_properties": ["C04"],
+             "kind_free_text": "TLC mask tables on grids beyond the full layout rows (modes on the cutoff sphere) + entry-by-entry replay"},
             {"name": "hooktrace", "path": "spec/Trace_Hooks.tla harness/hooktrace.py", "serves_properties": ["C03", "C14", "C15"],
              "kind_free_text": "TLC validation of hook-recorded events from our drivers and from the repository's own test-suite"},
             {"name": "lemmas", "path": "spec/Lemmas_apa.tla", "serves_properties": ["C03", "C04", "C15"],
